@@ -45,9 +45,15 @@ CFGS = {
                        MaxN="6", MaxSeq="2", MaxPk="2", MaxTime="3", Principals='{"admin"}', Extras="{}"),
     # the operator returns MORE than expected (the surplus belongs to the requesters of that batch)
     "long_q": dict(Returns='{"exact", "long"}', RewardAmts="{}", RcvKinds='{"self"}', Principals='{"u1"}', AdminOps="FALSE", MaxN="7", Extras="{}"),
+    # three batches: one account with open requests in two finished batches, withdrawing in either order
+    "batches3_q": dict(StakeAmts="{3}", UnstakeAmts="{1}", RewardAmts="{}", RcvKinds='{"self"}', Returns='{"exact"}', MaxBatches="3", MaxN="3", MaxSeq="2",
+                       MaxPk="2", MaxTime="9", Principals='{"u1"}', AdminOps="FALSE", Extras="{}"),
+    # rewards whose restaking transfer the chain refuses at submission
+    "feesfail_q": dict(SubmitFails="{0}", UnstakeAmts="{}", RewardAmts="{2, 5}", RcvKinds='{"self"}', Returns="{}", MaxBatches="1",
+                       MaxN="9", MaxSeq="4", MaxPk="4", MaxTime="0", Principals='{"admin"}', AdminOps="FALSE", Extras="{}"),
     # forced recovery of packets that are still in flight, then their late callbacks
     "ibc_force_q": dict(Extras='{"forceinflight"}', Outcomes='{"ok", "err", "timeout"}', Returns="{}", UnstakeAmts="{}", RcvKinds='{"self", "native"}',
-                        RewardAmts="{}", MaxBatches="1", MaxN="6", MaxSeq="4", MaxPk="3", MaxTime="0", Principals='{"admin", "u1"}'),
+                        RewardAmts="{}", MaxBatches="1", MaxN="6", MaxSeq="4", MaxPk="3", MaxTime="0", Principals='{"admin", "u1", "mon1"}'),
     # a fee rate above 100 %: every reward must be refused (fee exceeds the reward)
     "fee150_q": dict(FeeRate="150000", UnstakeAmts="{}", RewardAmts="{1, 2, 3}", RcvKinds='{"self"}', Returns="{}", MaxBatches="1",
                      MaxN="6", MaxSeq="3", MaxPk="3", MaxTime="0", AdminOps="FALSE", Extras="{}"),
